@@ -102,7 +102,7 @@ func newHSM(c *core.Ctx, label string, allowFault bool) *hsm {
 
 // bundleFile builds file content whose last 8 bytes state a length.
 func bundleFile(c *core.Ctx) ([]byte, string) {
-	n := c.PickInt("file.len", 8, 9, 16, 100, 1000, 4096, 70000)
+	n := c.PickInt("file.len", 8, 9, 16, 100, 1000, 4096, 70000, 65536, 131072, 65535, 65537)
 	if c.Bool("file.anyLen") {
 		n = c.Int("file.len2", 8, 600)
 	}
@@ -130,6 +130,12 @@ func bundleFile(c *core.Ctx) ([]byte, string) {
 		stated = uint64(n) + uint64(c.PickInt("file.more", 1, 2, 1000, 1<<31))
 	case "huge":
 		stated = c.PickU64("file.huge", 1<<63, 1<<63+1, ^uint64(0), 1<<63-1)
+	}
+	if kind == "own-length" && n >= 40 && c.Chance("file.looksSigned", 1, 8) {
+		// an UNSIGNED file (its trailing length is its own size) whose content happens to
+		// start like an integrity block - any content is a legal bundle here
+		copy(data, refib.EncodeBlock(nil))
+		c.Probe("unsigned file whose content starts like an integrity block")
 	}
 	binary.BigEndian.PutUint64(data[n-8:], stated)
 	return data, kind
